@@ -13,7 +13,7 @@ ASSUMPTIONS = [
     "n+agents (mTSP); 2*ops+1 (FJSP/JSSP); jobs*stages+(sum max durations+1)*machines+1 (FFSP); quota (FLP/MCP/DPP/MDPP); jobs (SMTWTP)",
     "policy level: AttentionModelPolicy decode loops (greedy / sampling / multistart) must call env.step at most bound(slowest row) times and never decode an all-masked row",
 ]
-REQUIRED_COUNTERS = ["episodes", "c02_step_events", "c02_batches_with_padding>=3", "c02_policy_forwards"]
+REQUIRED_COUNTERS = ["episodes", "c02_step_events", "c02_batches_with_padding>=3", "c02_policy_forwards", "c02_policy_filtered_forwards"]
 MIN_NONTRIVIAL = {"quick": 300, "thorough": 5000}
 WORKERS = {"quick": 12, "thorough": 16}
 BUDGET_S = {"quick": 400, "thorough": 3000}
@@ -47,6 +47,10 @@ def cases(tier, seed):
                     continue
                 for r in range(1 if tier == "quick" else 4):
                     out.append(dict(kind="policy", env=env, n=n, B=rnd.choice([1, 4, 7]), decode=dec, T=rnd.choice([1.0, 3.0]), s=rnd.randrange(10**6)))
+                    if dec == "sampling":
+                        # the documented filters: the k best RAW scores of a decoder may all belong to infeasible actions
+                        out.append(dict(kind="policy", env=env, n=n, B=rnd.choice([1, 4, 7]), decode=dec, T=rnd.choice([1.0, 3.0]), s=rnd.randrange(10**6),
+                                        filt=rnd.choice([dict(top_k=2), dict(top_k=3), dict(top_p=0.6), dict(top_k=3, top_p=0.8)])))
     return out
 
 
